@@ -155,6 +155,7 @@ func (r *rateLimiter) UpdateRateLimitConditionStatus(upstream string, condition 
 	defer mutex.Unlock()
 
 	oldCondition, err := limitStore.Get(condition.Spec.UpstreamCluster, condition.Name)
+	onRecord := err == nil
 	if errors.IsNotFound(err) {
 		oldCondition = &proxyv1alpha1.RateLimitCondition{
 			TypeMeta:   upstreamCondition.TypeMeta,
@@ -196,6 +197,13 @@ func (r *rateLimiter) UpdateRateLimitConditionStatus(upstream string, condition 
 		upstreamItemType := flowcontrol.GetFlowControlTypeFromLimitItem(upstreamTotal.LimitItemDetail)
 		if itemType != proxyv1alpha1.Unknown && itemType != upstreamItemType {
 			return nil, fmt.Errorf("upstream flow control item type %s not equal to instance item type %s", upstreamItemType, itemType)
+		}
+
+		if !onRecord {
+			// The instance is not on record (it was cleaned up while silent, or this server has just become leader),
+			// so the quota it still holds is not part of the allocated sum. Count it in, otherwise the
+			// instance would keep it on top of what has been handed out to the others in the meantime.
+			upstreamUsed = addLimitQuota(upstreamUsed, flowControlConfig.LimitItemDetail)
 		}
 
 		newConfig := calculateNextQuota(upstreamTotal, upstreamUsed, flowControlConfig, flowControlStatus, len(clients), condition)
@@ -746,6 +754,25 @@ func (r *rateLimiter) calculateUpstreamCondition(limitStore _interface.LimitStor
 	}
 	upstreamCondition.Status.LimitItemStatuses = newFlowControlStatus
 	return upstreamCondition
+}
+
+// addLimitQuota returns a copy of status with the quota of limit added to it.
+func addLimitQuota(status proxyv1alpha1.RateLimitItemStatus, limit proxyv1alpha1.LimitItemDetail) proxyv1alpha1.RateLimitItemStatus {
+	status = *status.DeepCopy()
+	switch {
+	case limit.MaxRequestsInflight != nil:
+		if status.MaxRequestsInflight == nil {
+			status.MaxRequestsInflight = &proxyv1alpha1.MaxRequestsInflightFlowControlSchema{}
+		}
+		status.MaxRequestsInflight.Max += limit.MaxRequestsInflight.Max
+	case limit.TokenBucket != nil:
+		if status.TokenBucket == nil {
+			status.TokenBucket = &proxyv1alpha1.TokenBucketFlowControlSchema{}
+		}
+		status.TokenBucket.QPS += limit.TokenBucket.QPS
+		status.TokenBucket.Burst += limit.TokenBucket.Burst
+	}
+	return status
 }
 
 func updateUpstreamStateCondition(upstreamCondition *proxyv1alpha1.RateLimitCondition, cluster *proxyv1alpha1.UpstreamCluster) *proxyv1alpha1.RateLimitCondition {
